@@ -133,13 +133,15 @@ CLAIMED = {
             "Correspondence and exact oracle on ray.intersect, linalg.is_left / wn_poly / convex_hull, voxelize.voxelize, operations.find_ctrlpts plus frange / grid / in-out helpers.",
             "Hull containment / convexity and wn = inside are oracle-checked only; ray theorems assume the exact square root (the rounded sqrt is passed to the model as an input). Open finding F-20a: use_cubes=True on a flat bounding box never returns."),
     'C11': ("7/C11",
-            "Lean theorems: collocation_interpolates - whenever lu_solve returns control points for the collocation system of ANY parameter list and knot vector, the curve evaluated (span by linear search, A2.2/A3.1) at the "
-            "i-th parameter is the i-th data point (every degree, dimension, number of points; composition of the LU correctness theorem of C16, the row structure of the collocation matrix and the evaluation model); "
-            "interpolateCurve_interpolates - the same for the model of fitting.interpolate_curve end to end; parameters start at 0; the approximation keeps the first and last data point as end control points. "
-            "The model (parametrisation with chord lengths as inputs, averaged knot vectors Eq. 9.8 and 9.68/9.69, collocation matrix, curve and two-pass surface interpolation, least-squares curve approximation via the normal equations) "
-            "is tied to fitting.interpolate_curve / interpolate_surface / approximate_curve by exact correspondence (the sqrt doubles are recomputed by the harness and passed as exact values).",
-            "Hypothesis, not proved: the collocation matrix has non-zero Doolittle pivots (the harness checks lu_solve returns on every generated data set). Not proved in Lean: surface interpolation, the minimisation property "
-            "(the exact oracle checks the normal equations and end/corner interpolation); approximate_surface is oracle-only."),
+            "Lean theorems, for every degree, size and dimension, whenever lu_solve returns: collocation_interpolates / interpolateCurve_interpolates - the curve evaluated (span by linear search, A2.2/A3.1) at the i-th parameter is the i-th data point; "
+            "interpolateSurface_interpolates - the two-pass surface interpolation passes through every data point Q[j+sv*i] at (u_i, v_j); parameters run 0..1, non-decreasing for non-negative chord lengths (strictly increasing for distinct consecutive points); "
+            "the averaged knot vectors (Eq. 9.8, 9.68/9.69) are clamped, of the right length and non-decreasing; approximate_curve keeps the end data points, its curve starts and ends at them, its interior control points satisfy the normal equations "
+            "N^T N x = N^T R exactly as the code builds them, the residual is orthogonal to every interior basis function, and they MINIMISE the summed squared distance to the interior data points over all choices of interior control points "
+            "(least_squares_pythagoras / least_squares_minimises over any ordered field; approximateCurve_minimises for the model function). "
+            "The model (parametrisation with chord lengths as inputs, averaged knot vectors, collocation matrix, curve and two-pass surface interpolation, least-squares curve approximation via the normal equations) "
+            "is tied to fitting.interpolate_curve / interpolate_surface / approximate_curve by exact correspondence (the sqrt doubles are recomputed by the harness and passed as exact values); the same data is also fitted twice in one process with different settings.",
+            "Hypothesis, not proved: the collocation matrix / N^T N have non-zero Doolittle pivots (Schoenberg-Whitney; the harness checks lu_solve returns on every generated data set). The minimised sum runs over the interior data points (objective of Eq. 9.63); "
+            "the version for the EVALUATED curve needs positive chord lengths; the interpolation knot vector is non-decreasing under invp*p*u_(n-2) <= 1 (invp is the double 1.0/p). approximate_surface is not modelled (oracle only: corner interpolation)."),
     'C14': ("7/C14",
             "Lean theorems (25) over a token-level model (numbers are abstract tokens) of the smesh, vmesh (repaired), txt 1-D/2-D and csv files and of the dict form behind JSON (trims, delta, sense flags, containers): "
             "import o export = identity up to rational form (unit weights) and normalised knot vectors for every degree, size triple, net and container length; documented row/column order; evaluation invariant under the reader's "
